@@ -604,6 +604,10 @@ func ruleCodecGuards(c *Ctx) {
 // decoder of such a type that creates a nested value of a type with its own context field must hand the
 // context on, otherwise the nested part is decoded (and later re-encoded, hashed) in the default shape.
 
+// contextReadOutsideDecoder: context fields that some method other than the type's decoder reads (they shape the
+// encoding, the hash or the size as well); filled by contextFields.
+var contextReadOutsideDecoder = map[*types.Var]bool{}
+
 func contextFields(c *Ctx) map[*types.Named][]*types.Var {
 	out := map[*types.Named][]*types.Var{}
 	for _, fd := range c.P.AllFuncDecls() {
@@ -701,6 +705,7 @@ func contextFields(c *Ctx) map[*types.Named][]*types.Var {
 						if id, ok := ast.Unparen(se.X).(*ast.Ident); ok && info.ObjectOf(id) == recv {
 							if v, ok := info.ObjectOf(se.Sel).(*types.Var); ok {
 								read[v] = true
+								contextReadOutsideDecoder[v] = true
 							}
 						}
 					}
@@ -1090,4 +1095,89 @@ func flagAfter(ws []site, body site) []site {
 		out = append(out, w)
 	}
 	return out
+}
+
+// ---------------------------------------------------------------------------
+// context-construction: a value of a type whose wire shape depends on a context field (contextFields: the state-root
+// flags of block.Header and of the consensus messages, Headers.StateRootInHeader) is used for encoding, hashing or
+// size estimation as soon as it exists; every place of the node that builds one sets the field (in the literal or by
+// an assignment in the same function), or is tabled with the reason the value never meets a state-root network.
+var contextConstructionOK = map[string]string{
+	"pkg/network/payload.(*MerkleBlock).DecodeBinary": "MerkleBlock is neither produced nor handled by the node (no handler for CMDMerkleBlock); its header is decoded in the default shape",
+}
+
+func ruleContextConstruction(c *Ctx) {
+	ctxf := contextFields(c)
+	n := 0
+	for _, fd := range c.P.AllFuncDecls() {
+		if fd.Decl.Body == nil || !InModule(fd.Obj.Pkg()) {
+			continue
+		}
+		rel := pkgRel(fd.Obj.Pkg())
+		if strings.HasPrefix(rel, "pkg/rpcclient") || strings.HasPrefix(rel, "cli") || strings.HasPrefix(rel, "internal") || strings.HasPrefix(rel, "pkg/neotest") {
+			continue
+		}
+		info := fd.Pkg.TypesInfo
+		k := 0
+		ast.Inspect(fd.Decl.Body, func(x ast.Node) bool {
+			lit, ok := x.(*ast.CompositeLit)
+			if !ok {
+				return true
+			}
+			nt, ok := info.TypeOf(lit).(*types.Named)
+			if !ok || len(ctxf[nt]) == 0 {
+				return true
+			}
+			for _, cf := range ctxf[nt] {
+				if !contextReadOutsideDecoder[cf] {
+					// the field matters to the type's decoder only: a value built to be encoded needs none
+					decodes := false
+					ast.Inspect(fd.Decl.Body, func(z ast.Node) bool {
+						if call, ok := z.(*ast.CallExpr); ok {
+							if se, ok := ast.Unparen(call.Fun).(*ast.SelectorExpr); ok && strings.HasPrefix(se.Sel.Name, "Decode") {
+								decodes = true
+							}
+						}
+						return !decodes
+					})
+					if !decodes {
+						continue
+					}
+				}
+				n++
+				k++
+				key := fmt.Sprintf("%s.ctx#%d", FuncKey(fd.Obj), k)
+				set := false
+				for _, el := range lit.Elts {
+					if kv, ok := el.(*ast.KeyValueExpr); ok {
+						if id, ok := kv.Key.(*ast.Ident); ok && info.ObjectOf(id) == cf {
+							set = true
+						}
+					}
+				}
+				if !set {
+					ast.Inspect(fd.Decl.Body, func(z ast.Node) bool {
+						if as, ok := z.(*ast.AssignStmt); ok {
+							for _, l := range as.Lhs {
+								if se, ok := ast.Unparen(l).(*ast.SelectorExpr); ok && info.ObjectOf(se.Sel) == cf {
+									set = true
+								}
+							}
+						}
+						return true
+					})
+				}
+				switch {
+				case set:
+					c.OK(key, c.P.Pos(lit.Pos()), fmt.Sprintf("%s is built with its context field %s set", nt.Obj().Name(), cf.Name()))
+				case contextConstructionOK[FuncKey(fd.Obj)] != "":
+					c.OK(key, c.P.Pos(lit.Pos()), "tabled: "+contextConstructionOK[FuncKey(fd.Obj)])
+				default:
+					c.Fail(key, c.P.Pos(lit.Pos()), fmt.Sprintf("%s builds a %s without setting %s, the field that decides its wire shape: whatever is computed from it (encoding, hash, size estimate) is that of the default shape - on a network with state roots in headers the value is 32 bytes shorter than the real one", FuncKey(fd.Obj), nt.Obj().Name(), cf.Name()))
+				}
+			}
+			return true
+		})
+	}
+	c.Floor("constructions of context-dependent values in the node", n, 6)
 }
